@@ -17,6 +17,7 @@
    Output: ctxout.ndjson, one line per record. *)
 EXTENDS AELexer, AEHTMLTok, AETables, TLC, Json
 
+CONSTANT Fmt        \* file format of the documents of this run: "HTML", "JS", "CSS" or "JSON"
 Obs == ndJsonDeserialize("obs.ndjson")
 
 Observed(c) == c >= 0 \/ c = -2
@@ -28,7 +29,7 @@ NoRoot == [none |-> 1]
    desynchronisation that had been fully repaired would not be on them; a later accidental
    agreement of the context NAMES (e.g. lexer in a JS line comment, reference in JS code) does not
    mean that the two machines are in step again. *)
-Base == [h |-> HNorm(H0), l |-> L0, ctx |-> "HTML", url |-> 0, slot |-> Slot(H0), kind |-> "", agree |-> TRUE, root |-> NoRoot]
+Base == [h |-> HNorm(HInit(Fmt)), l |-> L0F(Fmt), ctx |-> Fmt, url |-> 0, slot |-> Slot(HInit(Fmt)), kind |-> "", agree |-> TRUE, root |-> NoRoot]
 
 NodeOf(n, par) ==
   LET h2 == HNorm(HRun(par.h, n.frag))
